@@ -282,6 +282,21 @@ static void check_case(vg::Src& s, vh::Ctx& c)
         }
         else
             ero->set_k_scalar(ks2);
+        if (s.chance(40))
+        {
+            // a refused call (diffusivity array of the wrong shape) leaves the eroder as it was
+            bool threw = false;
+            try
+            {
+                ero->set_k_array_bad_shape();
+            }
+            catch (const std::exception&)
+            {
+                threw = true;
+            }
+            c.expect(threw, "bad-k-accepted", "set_k_coef with an array of another shape was accepted");
+            c.label("refused-set_k_coef");
+        }
         std::vector<double> z2 = vg::gen_field(s, m, nullptr, true);
         for (auto& v : z2)
             v *= zs;
